@@ -14,8 +14,11 @@
      is_internal_node n t    reseed_at / reroot_at_node are documented for internal nodes (F19)
      2 <= |children of seed| a seed with one child becomes a taxon-less LEAF when the tree is re-seeded
      NoDup (leaf_taxa t)     leaf taxa pairwise distinct;   NoDup (ids t)  node identities distinct
-     uniform_lengths t       non-seed edge lengths all defined or all None (only where
-                             collapse_basal_bifurcation can run: it swallows `None + x`) *)
+   No hypothesis on the lengths: any mixture of None / defined lengths (since fix 1fc3f136
+   collapse_basal_bifurcation keeps the removed basal edge's length when the kept one has none; the
+   former finding mixed-none-lengths-lose-length and its `uniform_lengths` hypothesis are gone;
+   Node.remove_child(suppress_unifurcations=True) still has the bare try/except but is not reached
+   from any operation of this property). *)
 From Coq Require Import ZArith List Bool Permutation.
 From DV Require Import Model.PyPrims Model.Tree Model.C07Model Model.C07Spec Proofs.C07Thms.
 Import ListNotations.
@@ -45,7 +48,6 @@ Theorem reseed_at_invariant :
   forall t r n upd coll supp t' r',
   reseed_at t r n upd coll supp = Ok (t', r') ->
   is_internal_node n t -> (2 <= length (t_kids t))%nat -> NoDup (leaf_taxa t) ->
-  (coll = true -> r <> Some true -> uniform_lengths t) ->
   Permutation (leaf_taxa t) (leaf_taxa t')
   /\ (forall S, is_usplit t S <-> is_usplit t' S)
   /\ total_length t' = total_length t
@@ -136,7 +138,7 @@ Print Assumptions randomly_rotate_invariant.
 Theorem randomly_reorient_invariant :
   forall t r n upd sc t' r',
   reorient t r n upd sc = Ok (t', r') ->
-  NoDup (ids t) -> (2 <= length (t_kids t))%nat -> NoDup (leaf_taxa t) -> uniform_lengths t ->
+  NoDup (ids t) -> (2 <= length (t_kids t))%nat -> NoDup (leaf_taxa t) ->
   Permutation (leaf_taxa t) (leaf_taxa t')
   /\ (forall S, is_usplit t S <-> is_usplit t' S)
   /\ total_length t' = total_length t
@@ -156,7 +158,7 @@ Print Assumptions suppress_unifurcations_invariant.
 
 Theorem collapse_basal_bifurcation_invariant :
   forall t t' did,
-  collapse_basal t = (t', did) -> NoDup (leaf_taxa t) -> uniform_lengths t ->
+  collapse_basal t = (t', did) -> NoDup (leaf_taxa t) ->
   Permutation (leaf_taxa t) (leaf_taxa t')
   /\ (forall S, is_usplit t S <-> is_usplit t' S)
   /\ total_length t' = total_length t
@@ -165,23 +167,12 @@ Proof. exact collapse_basal_l. Qed.
 Print Assumptions collapse_basal_bifurcation_invariant.
 
 (* ============ 3. the hypotheses are needed: refutations on the faithful model ============ *)
-(* without uniform_lengths: reseed_at on ((A:1,B:1),(C:1,D:1):2) (one edge below the seed without a
-   length) loses length: collapse_basal_bifurcation's `try: keep += del except: pass`
-   finding key mixed-none-lengths-lose-length *)
-Theorem mixed_none_length_refuted :
-  exists t r n upd coll supp t' r',
-    reseed_at t r n upd coll supp = Ok (t', r')
-    /\ is_internal_node n t /\ (2 <= length (t_kids t))%nat /\ NoDup (leaf_taxa t)
-    /\ total_length t' <> total_length t.
-Proof. exact mixed_refuted. Qed.
-Print Assumptions mixed_none_length_refuted.
-
 (* without is_internal_node: reseed_at on a leaf (outside the documented domain, F19) loses the
    leaf's edge length *)
 Theorem reseed_at_leaf_refuted :
   exists t r n upd coll supp t' r' X,
     reseed_at t r n upd coll supp = Ok (t', r') /\ find_node n t = Some X /\ t_kids X = []
-    /\ (2 <= length (t_kids t))%nat /\ NoDup (leaf_taxa t) /\ uniform_lengths t
+    /\ (2 <= length (t_kids t))%nat /\ NoDup (leaf_taxa t)
     /\ total_length t' <> total_length t.
 Proof. exact reseed_leaf_refuted. Qed.
 Print Assumptions reseed_at_leaf_refuted.
@@ -192,7 +183,7 @@ Print Assumptions reseed_at_leaf_refuted.
 Theorem seed_unifurcation_refuted :
   exists t r n upd coll supp t' r',
     reseed_at t r n upd coll supp = Ok (t', r')
-    /\ is_internal_node n t /\ NoDup (leaf_taxa t) /\ uniform_lengths t
+    /\ is_internal_node n t /\ NoDup (leaf_taxa t)
     /\ ~ Permutation (leaf_taxa t) (leaf_taxa t').
 Proof. exact seed_unif_refuted. Qed.
 Print Assumptions seed_unifurcation_refuted.
@@ -264,10 +255,19 @@ Print Assumptions hard_sets_rooted.
 (* ex_t = ((A:1,B:1):1,(C:1,D:1):1), node ids 0..6 in preorder, taxa 0..3 *)
 Theorem nonvacuous_reseed_at :
   exists t' r', reseed_at ex_t None 1 true true true = Ok (t', r') /\ t' <> ex_t
-    /\ is_internal_node 1 ex_t /\ (2 <= length (t_kids ex_t))%nat /\ NoDup (leaf_taxa ex_t)
-    /\ (true = true -> None <> Some true -> uniform_lengths ex_t).
+    /\ is_internal_node 1 ex_t /\ (2 <= length (t_kids ex_t))%nat /\ NoDup (leaf_taxa ex_t).
 Proof. exact ex_reseed. Qed.
 Print Assumptions nonvacuous_reseed_at.
+
+(* ex_mixed = ((A:1,B:1),(C:1,D:1):2): one edge below the seed has no length; reseed_at collapses
+   the basal bifurcation (undefined rooting) and the tree length stays 6 (it dropped to 4 before
+   fix 1fc3f136) *)
+Theorem nonvacuous_reseed_at_mixed_lengths :
+  exists t' r', reseed_at ex_mixed None 0 false true true = Ok (t', r') /\ t' <> ex_mixed
+    /\ is_internal_node 0 ex_mixed /\ (2 <= length (t_kids ex_mixed))%nat /\ NoDup (leaf_taxa ex_mixed)
+    /\ total_length t' = 6144 /\ total_length ex_mixed = 6144.
+Proof. exact ex_reseed_mixed. Qed.
+Print Assumptions nonvacuous_reseed_at_mixed_lengths.
 
 Theorem nonvacuous_reroot_at_edge :
   exists t' r' H, reroot_at_edge ex_t (Some false) 1 (Some 256) (Some 768) true true 100 = Ok (t', r')
@@ -293,8 +293,7 @@ Print Assumptions nonvacuous_to_outgroup.
 
 Theorem nonvacuous_reorient :
   exists t' r', reorient ex_t None (Some 4) false [(4, [0%nat; 2%nat; 1%nat]); (0, [1%nat; 0%nat]); (1, [1%nat; 0%nat])] = Ok (t', r')
-    /\ t' <> ex_t /\ NoDup (ids ex_t) /\ (2 <= length (t_kids ex_t))%nat /\ NoDup (leaf_taxa ex_t)
-    /\ uniform_lengths ex_t.
+    /\ t' <> ex_t /\ NoDup (ids ex_t) /\ (2 <= length (t_kids ex_t))%nat /\ NoDup (leaf_taxa ex_t).
 Proof. exact ex_reorient. Qed.
 Print Assumptions nonvacuous_reorient.
 
